@@ -4,13 +4,13 @@ go 1.24
 
 require (
 	github.com/anishathalye/porcupine v1.3.0
+	github.com/go-json-experiment/json v0.0.0-20250213060926-925ba3f173fa
 	github.com/golang/snappy v1.0.0
 	github.com/philpearl/avro v0.0.0
 	github.com/unravelin/null/v5 v5.0.1
 )
 
 require (
-	github.com/go-json-experiment/json v0.0.0-20250213060926-925ba3f173fa // indirect
 	github.com/josharian/intern v1.0.0 // indirect
 	github.com/mailru/easyjson v0.7.7 // indirect
 )
